@@ -1173,6 +1173,10 @@ def check_c15(pid, tier, build, props):
         problems.append("driver errors: %r" % errors[:2])
     violations = []
     n_dicts = agree = hyp = 0
+    fd_n = fd_ok = fd_skipped = 0
+    closed = 0
+    not_closed = []
+    fd_kinds = {}
     graphs = 0
     for item, meta, res in out:
         if meta and "harness_error" in meta:
@@ -1186,18 +1190,39 @@ def check_c15(pid, tier, build, props):
         if res is None:
             continue
         rs = res if (res and isinstance(res[0], list)) else [res]
+        fd_meta = list(meta.get("fromdict", []))
+        fd_skipped += len(meta.get("fromdict_skipped", []))
         for x in rs:
+            if len(x) == 4:
+                what, exc = fd_meta.pop(0) if fd_meta else ("?", None)
+                fd_n += 1
+                fd_kinds[what + ("/raises" if exc else "/builds")] = fd_kinds.get(what + ("/raises" if exc else "/builds"), 0) + 1
+                if x == [1, 1, 1, 1]:
+                    fd_ok += 1
+                elif len(violations) < 6:
+                    why = ["instance not decoded", "one raises, the other builds a graph",
+                           "top graph differs", "blocks differ"][[i for i, v in enumerate(x) if v != 1][0]]
+                    violations.append({"graph": item[1], "payload": item[2], "witness": None, "model_tie": True,
+                                       "note": "from_dict differs from the model Serial2.from_dict on the %s dictionary "
+                                               "(%s): %s" % (what, exc or "built", why)})
+                continue
             n_dicts += 1
             agree += 1 if x[0] == 1 else 0
             hyp += 1 if x[1] == 1 else 0
+            closed += 1 if (len(x) > 2 and x[2] == 1) else 0
+            if len(x) > 2 and x[2] != 1 and len(not_closed) < 5:
+                not_closed.append({"graph": item[1], "payload": item[2]})
             if x[0] != 1 and len(violations) < 6:
                 violations.append({"graph": item[1], "payload": item[2], "witness": None,
                                    "note": "written dictionary differs from the model's to_dict of the exported graph"})
     nth = len(props["theorems"])
     coverage = {
-        "obligations": nth + 1,
-        "discharged": (nth if props["ok"] else 0) + (1 if n_dicts and agree == n_dicts and not violations else 0),
-        "checker_cmd": "coqc Props/C15.v; build/extract/vchk (Serial.run_c15) on written dictionaries + exported graphs",
+        "obligations": nth + 2,
+        "discharged": (nth if props["ok"] else 0) + (1 if n_dicts and agree == n_dicts and not violations else 0)
+                      + (1 if fd_n and fd_ok == fd_n else 0),
+        "from_dict_runs_equal_to_model": fd_ok, "from_dict_runs": fd_n, "from_dict_runs_by_kind": fd_kinds,
+        "from_dict_not_exportable": fd_skipped,
+        "checker_cmd": "coqc Props/C15.v; build/extract/vchk (Serial.run_c15, Serial2.run_fromdict) on written dictionaries + exported graphs",
         "trusted_base": TRUSTED + ["extraction and ocaml/driver.ml", "harness/vh/c15.py, export.py",
                                    "PyYAML (the YAML text layer is exercised, not modelled)"],
         "theorems": props["theorems"],
@@ -1208,20 +1233,29 @@ def check_c15(pid, tier, build, props):
                 "compare dictionaries and structures; every written dictionary (of the graph and of the re-read "
                 "graph) compared with the model's to_dict; distinct = input graphs",
         "dictionaries_equal_to_model": agree, "theorem_hypotheses_hold": hyp,
+        "round_trip_theorem_hypothesis_holds": closed, "hierarchies_not_closed_samples": not_closed,
         "samples": [{"graph": items[len(items) // 2][1], "payload": items[len(items) // 2][2]}],
         "traces_validated_against_impl": agree,
-        "explanation": "Proved (U): a dictionary entry determines its block (class, payload, ordered successors, back "
-                       "edges, table / assignments, region kind, header, exiting, recorded parent, children); two "
-                       "hierarchies with unique names and the same dictionary have the same blocks and the same "
-                       "nesting. Evaluated per graph on the implementation: to_dict(from_dict(to_dict x)) == "
-                       "to_dict x, the same through YAML, and both dictionaries equal the model's to_dict of the "
-                       "exported graphs - so, by the theorems, the re-read graph equals the written one in "
-                       "everything the dictionary records. Not modelled: from_dict's reconstruction itself and the "
-                       "YAML text layer (PyYAML); dictionary order inside a graph and the top region's name are not "
-                       "recorded by to_dict; PythonASTBlock cannot be serialised (not claimed by the property).",
+        "explanation": "Proved (U), over the model of from_dict/make_scfg/find_outer_graph (Model/Serial2.v): for EVERY "
+                       "closed hierarchy, of any size and depth, the reader terminates without raising, rebuilds every "
+                       "written block with the same class, payload, ordered successors, back edges, table or "
+                       "assignments, every region with the same kind, header, exiting block, parent and the same blocks "
+                       "in its graph, builds nothing else, keeps the outermost region's name whenever a region recorded "
+                       "it, and writing the result gives the same dictionary (C15_round_trip; induction over the "
+                       "recursion of make_scfg with a breadth-first invariant per level). 'Closed' is decided by the "
+                       "verified checker closedb on every exported hierarchy (round_trip_theorem_hypothesis_holds). "
+                       "Also proved: a dictionary entry determines its block; two hierarchies with unique names and the "
+                       "same dictionary have the same blocks and nesting. Ties (M): every written dictionary equals the "
+                       "model's to_dict of the exported graph; every run of the implementation's from_dict - on the "
+                       "written dictionaries and on altered ones (dropped block, re-targeted edge, extra back edge, "
+                       "changed contains/header/exiting/parent) - builds exactly the blocks, in the same order, that "
+                       "the model builds, or both raise. Evaluated per graph on the implementation: write-read-write "
+                       "and the same through YAML. Not modelled: the YAML text layer (PyYAML); dictionary order inside "
+                       "a graph and the top region's name (when no region records it) are not recorded by to_dict; "
+                       "PythonASTBlock cannot be serialised (not claimed by the property).",
     }
     return {"coverage": coverage, "violations": violations, "problems": problems, "level": "proof",
-            "wall_s": t.s(), "broken_name": "Props/C15.v / correspondence to_dict = Serial.to_dict"}
+            "wall_s": t.s(), "broken_name": "Props/C15.v / correspondence to_dict = Serial.to_dict, from_dict = Serial2.from_dict"}
 
 
 REGISTRY["C15"] = check_c15
